@@ -294,6 +294,136 @@ harness("c18.cancelrace.lines", prop="C18", traced=("retry", "common"), horizon=
         params=[q for q in _rparams() if "retry" in q["layers"] and len(q["layers"]) <= 2])(rbody)
 oracle("c18.cancelrace.lines")(rcheck)
 
+# ------------------------------------------------------------------ poll function failing while a cancel lands
+def _pparams():
+    return [dict(kind=k, when=w) for k in ("yield_exc", "raise") for w in (0.0, 1.0)]
+
+
+def pbody(mc, p):
+    from more_executors._impl.poll import PollExecutor
+    base = ManualExecutor(mc, mode="manual")
+
+    def poll_fn(ds):
+        mc.emit("poll", n=len(ds), t=mc.clock)
+        if mc.clock < p["when"]:
+            return None
+        mc.point()
+        if p["kind"] == "raise":
+            raise E2("fault:poll_fn")
+        for d in ds:
+            mc.point()
+            d.yield_exception(E2("x:" + d.result))
+    ex = PollExecutor(base, poll_fn, default_interval=1.0)
+    f0 = ex.submit(lambda: "r0")
+    f1 = ex.submit(lambda: "r1")
+    mc.spawn(base.worker_loop, "worker", client=False)
+
+    def canceller():
+        if p["when"]:
+            mc.sleep(p["when"])
+        try:
+            mc.emit("cancel.ret", val=f0.cancel())
+        except Exception as e:
+            mc.emit("escaped", op="cancel", exc=type(e).__name__, msg=str(e)[:100])
+    mc.spawn(canceller, "can")
+    mc.sleep(6)
+    try:
+        fp = ex.submit(lambda: "rp")
+    except Exception as e:
+        fp = None
+        mc.emit("escaped", op="submit", exc=type(e).__name__, msg=str(e)[:100])
+    mc.sleep(6)
+    mc.observe(f0=snapshot(f0), f1=snapshot(f1), probe=snapshot(fp) if fp is not None else None)
+    ex.shutdown(False)
+    base.down = True
+
+
+def pcheck(x):
+    if not x.require(x.end == "done" and "probe" in x.obs, "bad-ending", end=x.end):
+        return
+    want = "E2(fault:poll_fn)" if x.p["kind"] == "raise" else None
+    for who, r in (("f1", "r1"), ("probe", "rp")):
+        s = x.obs[who]
+        ok = s is not None and s[0] == "err" and (s[1] == want or s[1] == "E2(x:%s)" % r)
+        x.require(ok, "unrelated-future-affected", who=who, site="poll_fn", detail=repr(s))
+    s0 = x.obs["f0"]
+    x.require(s0[0] in ("cancelled", "err") and "InvalidState" not in str(s0[1]), "victim-outcome", detail=repr(s0))
+    for e in x.events("escaped"):
+        x.require(False, "exception-escaped-api", op=e["op"], exc=e["exc"], detail=e["msg"])
+    for name, exc in x.deaths:
+        x.require(False, "thread-died", thread=name.split("-")[0], exc=exc[0], detail=exc[2][-600:])
+    for r in x.logrecords:
+        if r["exc_type"] in ("InvalidStateError", "AssertionError") and r["level"] >= 40:
+            x.require(False, "internal-exception-logged-as-error", exc=r["exc_type"], logger=r["logger"], detail=r["msg"])
+
+
+# ------------------------------------------------------------------ count callable raising around a blocked submit()
+def _bparams():
+    return [dict(raise_from=r, over_retry=o) for r in (0.5, 1.5, None) for o in (False, True)]
+
+
+def bbody(mc, p):
+    from more_executors._impl.throttle import ThrottleExecutor
+    base = ManualExecutor(mc, mode="manual")
+
+    def count():
+        if p["raise_from"] is not None and mc.clock >= p["raise_from"]:
+            mc.emit("fault", site="count", n=0)
+            raise E2("fault:count")
+        return 1
+    ex = ThrottleExecutor(base, count, block=True)
+    top = Executors.with_retry(ex, max_attempts=2, sleep=1.0, exception_base=E) if p["over_retry"] else ex
+    release = [False]
+
+    def occupant():
+        mc.wait_until(lambda: release[0])
+        return "occ"
+    res = {}
+
+    def sub(tag, fn):
+        def run():
+            try:
+                res[tag] = top.submit(fn)
+                mc.emit("submitted", tag=tag, t=mc.clock)
+            except Exception as e:
+                mc.emit("escaped", op="submit:" + tag, exc=type(e).__name__, msg=str(e)[:100])
+        return run
+    mc.spawn(base.worker_loop, "worker", client=False)
+    sub("occ", occupant)()
+    mc.sleep(0.25)
+    sub("queued", lambda: "q")()
+    mc.spawn(sub("blocked", lambda: "b"), "blocked")       # blocks: the queue already holds count entries
+
+    def releaser():
+        mc.sleep(2.0)
+        release[0] = True
+    mc.spawn(releaser, "rel", client=False)
+    mc.sleep(40)
+    sub("probe", lambda: "p")()
+    mc.sleep(40)
+    mc.observe(res=tuple(sorted((k, snapshot(f)) for k, f in res.items())))
+    top.shutdown(False)
+    base.down = True
+
+
+def bcheck(x):
+    if not x.require(x.end == "done" and "res" in x.obs, "bad-ending", end=x.end):
+        return
+    res = dict(x.obs["res"])
+    for tag, val in (("occ", "occ"), ("queued", "q"), ("blocked", "b"), ("probe", "p")):
+        x.require(res.get(tag) == ("ok", val), "submission-not-served", tag=tag, detail=repr(res.get(tag)))
+    for e in x.events("escaped"):
+        x.require(False, "exception-escaped-api", op=e["op"].split(":")[0], exc=e["exc"], detail=e["msg"])
+    for name, exc in x.deaths:
+        x.require(False, "thread-died", thread=name.split("-")[0], exc=exc[0], detail=exc[2][-600:])
+
+
+harness("c18.blockcount", prop="C18", traced=(), horizon=120, params=_bparams())(bbody)
+oracle("c18.blockcount")(bcheck)
+
+harness("c18.pollrace", prop="C18", traced=("poll", "common"), horizon=40, params=_pparams())(pbody)
+oracle("c18.pollrace")(pcheck)
+
 harness("c18.fault", prop="C18", traced=(), horizon=60, params=_params())(body)
 oracle("c18.fault")(check)
 harness("c18.fault.lines", prop="C18", traced=("retry", "poll", "throttle", "map", "common"), horizon=60,
@@ -302,7 +432,9 @@ oracle("c18.fault.lines")(check)
 
 PLAN = {
     "quick": [dict(harness="c18.fault", bound=1), dict(harness="c18.fault.lines", bound=0),
-              dict(harness="c18.cancelrace", bound=2), dict(harness="c18.cancelrace.lines", bound=1)],
+              dict(harness="c18.cancelrace", bound=2), dict(harness="c18.cancelrace.lines", bound=1),
+              dict(harness="c18.pollrace", bound=1), dict(harness="c18.blockcount", bound=1)],
     "thorough": [dict(harness="c18.fault", bound=2), dict(harness="c18.fault.lines", bound=1),
-                 dict(harness="c18.cancelrace", bound=3), dict(harness="c18.cancelrace.lines", bound=2)],
+                 dict(harness="c18.cancelrace", bound=3), dict(harness="c18.cancelrace.lines", bound=2),
+                 dict(harness="c18.pollrace", bound=2), dict(harness="c18.blockcount", bound=2)],
 }
